@@ -102,7 +102,7 @@ pub struct Runner<'a> {
 }
 
 #[derive(Debug, PartialEq)]
-pub enum UnitEnd { Idle, Negative, Stalled, StreamEnded, Crashed }
+pub enum UnitEnd { Idle, Negative, Stalled, StreamEnded, Crashed, Panicked }
 
 impl<'a> Runner<'a> {
     fn poll_ctls(&mut self) {
